@@ -58,3 +58,46 @@ Example C10_key_order_refuted_unfixed :
   warm_start_position_unfixed sp [(1, 105); (0, 3)] = Ok [3; 0] /\
   warm_start_position sp [0; 1] [(1, 105); (0, 3)] = Ok [2; 1].
 Proof. exact key_order_unfixed. Qed.
+
+Require Import PyPrims PyPrimsQ CoreOpt CoreFacts InitGen InitTie.
+
+(* ---------- the Initializer GENERATED from /repo's init_positions.py (generated/InitGen.v; ties in proofs/InitTie.v) ---------- *)
+(* the source's _init_warm_start IS the model's init_warm_start (dictionaries read by parameter name, nearest position, constraint
+   filter); it leaves initialize / n_inits / init_positions_l and the random tape alone *)
+Theorem C10_source_init_warm_start_refines : forall sp cons names self ws,
+  match g_Initializer_init_warm_start sp cons names self ws with
+  | Ok (s', l) => init_warm_start sp cons names ws = Ok l /\ same_cfg self s' /\ in_tape s' = in_tape self
+  | Err e => init_warm_start sp cons names ws = Err e
+  end.
+Proof. exact init_warm_start_tie. Qed.
+Print Assumptions C10_source_init_warm_start_refines.
+
+(* the source's __init__ + set_pos: n_inits is the sum of the planned counts, the list of initial positions is
+   random ++ grid ++ vertices ++ warm ++ random fill (Init.assemble) *)
+Theorem C10_source_initializer_spec : forall sp cons names igs iv,
+  (forall s n s' l, igs s n = Ok (s', l) -> same_cfg s s' /\ (length l <= Z.to_nat n)%nat) ->
+  (forall s n s' l, iv s n = Ok (s', l) -> same_cfg s s' /\ (length l <= Z.to_nat n)%nat) ->
+  forall fuel self0 iz s', g_Initializer_init sp cons names igs iv fuel self0 iz = Ok s' ->
+  in_initialize s' = iz /\
+  in_n_inits s' = optz (iz_random iz) + optz (iz_grid iz) + optz (iz_vertices iz) + optlen (iz_warm_start iz) /\
+  exists rnd grid vert warm fill,
+    in_init_positions_l s' = assemble rnd grid vert warm fill /\
+    (length rnd <= cnt (iz_random iz))%nat /\ (length grid <= cnt (iz_grid iz))%nat /\ (length vert <= cnt (iz_vertices iz))%nat /\
+    (forall ws, iz_warm_start iz = Some ws -> init_warm_start sp cons names ws = Ok warm) /\
+    length fill = Z.to_nat (in_n_inits s' - zlen (rnd ++ grid ++ vert ++ warm)) /\
+    Forall (emit_ok sp cons) rnd /\ Forall (emit_ok sp cons) fill.
+Proof. exact init_spec. Qed.
+Print Assumptions C10_source_initializer_spec.
+
+(* C10 for the generated code: a warm-start dictionary whose (nearest) position is feasible is in init_positions_l before index n_inits,
+   for every mix of the other initialisation kinds; _init_grid_search / _init_vertices are abstract (any functions that leave the
+   configuration alone and return at most the requested number of positions) *)
+Theorem C10_source_warm_start_in_init_list : forall sp cons names igs iv,
+  (forall s n s' l, igs s n = Ok (s', l) -> same_cfg s s' /\ (length l <= Z.to_nat n)%nat) ->
+  (forall s n s' l, iv s n = Ok (s', l) -> same_cfg s s' /\ (length l <= Z.to_nat n)%nat) ->
+  forall fuel self0 iz s' ws w p, g_Initializer_init sp cons names igs iv fuel self0 iz = Ok s' ->
+  iz_warm_start iz = Some ws -> In w ws -> warm_start_position sp names w = Ok p -> not_in_constraint sp cons p = Ok true ->
+  0 <= optz (iz_random iz) -> 0 <= optz (iz_grid iz) -> 0 <= optz (iz_vertices iz) ->
+  exists i, nth_error (in_init_positions_l s') i = Some p /\ Z.of_nat i < in_n_inits s'.
+Proof. exact source_warm_start_in_init_list. Qed.
+Print Assumptions C10_source_warm_start_in_init_list.
